@@ -183,7 +183,7 @@ func isZeroConst(v ssa.Value) bool {
 }
 
 func checkC18(c *core.Ctx, l *core.Ledger) {
-	l.Explanation = "Static clauses of C18 (the lifecycle and ownership discipline that isolation under any schedule rests on): (POOL-SITES) each of the codec's sync.Pools is read (Get) only in its borrow function and written (Put) only in its release function, and what is Put is the release function's own parameter of the pool's element type; (POOL-RESET) every field of a pooled object is, at every initialisation site, assigned on all paths before the object escapes, or reset to its zero value before every Put (then conditional assignment is stale-free), or written only by the pool's New function (bound method values), or is a value-typed scratch array — otherwise a stale value of the previous borrower could be observed; (POOL-PUT) after Put the release function does not touch the object, and no path executes Put twice; (POOL-PAIR) every internal borrower releases on all paths to return and no path releases the same object twice (a double Put hands one object to two goroutines); (R-LOCK) frame.Client.Send, frame.Reader.Read and frame.Writer.Write take their mutex as first effect with a deferred unlock, so the write and the matching read of one request are not interleaved with another's; (FANOUT) closures run by concurrent.Range access captured variables that any of them writes only between Lock and a deferred Unlock of a captured mutex, and concurrent.Range adds to the WaitGroup before each go statement, defers Done first in each goroutine, appends errors only under its lock and reads them only after Wait; (FRESH-RESULT) byte slices returned by methods of the framing layer and the codec originate from memory allocated during the call (or from the arguments), never from a field of the receiver or a package-level variable that the object reuses — a shared frame.Client would otherwise hand one caller's response buffer to the next; (NO-SHARED-STATE) package-level variables of wire, protocol, protocol/binary, protocol/stream and envelope are pools, immutable values (field-less structs, errors, zero-length slices, constants-in-vars) never stored to outside package initialisation; the same for generated packages. NOT decided: absence of data races as such, schedules, results of concurrent operations; callers outside the repository honouring the borrow/release contract; values kept by a user after wire.EvaluateValue closed their lazy lists."
+	l.Explanation = "Static clauses of C18 (the lifecycle and ownership discipline that isolation under any schedule rests on): (POOL-SITES) each of the codec's sync.Pools is read (Get) only in its borrow function and written (Put) only in its release function, and what is Put is the release function's own parameter of the pool's element type; (POOL-RESET) every field of a pooled object is, at every initialisation site, assigned on all paths before the object escapes, or reset to its zero value before every Put (then conditional assignment is stale-free), or written only by the pool's New function (bound method values), or is a value-typed scratch array — otherwise a stale value of the previous borrower could be observed; (POOL-PUT) after Put the release function does not touch the object, and no path executes Put twice; (POOL-PAIR) every internal borrower releases on all paths to return and no path releases the same object twice (a double Put hands one object to two goroutines); (R-LOCK) frame.Client.Send, frame.Reader.Read and frame.Writer.Write take their mutex as first effect with a deferred unlock, so the write and the matching read of one request are not interleaved with another's; (FANOUT) closures run by concurrent.Range access captured variables that any of them writes only between Lock and a deferred Unlock of a captured mutex, and concurrent.Range adds to the WaitGroup before each go statement, defers Done first in each goroutine, appends errors only under its lock and reads them only after Wait; (MUTEX-FIELDS) for every struct that carries a mutex, the fields its methods write after construction are accessed by its methods only with that mutex held (or from methods that are only called under it); (FRESH-RESULT) byte slices returned by methods of the framing layer and the codec originate from memory allocated during the call (or from the arguments), never from a field of the receiver or a package-level variable that the object reuses — a shared frame.Client would otherwise hand one caller's response buffer to the next; (NO-SHARED-STATE) package-level variables of wire, protocol, protocol/binary, protocol/stream and envelope are pools, immutable values (field-less structs, errors, zero-length slices, constants-in-vars) never stored to outside package initialisation; the same for generated packages. NOT decided: absence of data races as such, schedules, results of concurrent operations; callers outside the repository honouring the borrow/release contract; values kept by a user after wire.EvaluateValue closed their lazy lists."
 	l.RuleText = "one obligation per pool site / pooled field / borrow site / critical section / package-level variable"
 	l.Assumptions = []string{"sync.Pool, sync.Mutex, sync.WaitGroup behave as documented", "external callers release each borrowed object exactly once and do not use it afterwards"}
 
@@ -556,6 +556,9 @@ func checkC18(c *core.Ctx, l *core.Ledger) {
 		l.Check(ok, "FANOUT", "concurrent.Range:wait", c.Rel(rangeFn.Pos()), "every path from a go statement to return passes Wait, so results are read after all callbacks finished", "Range can return (and read the error list) while callbacks are still running")
 	}
 	l.Floor("FANOUT", 5)
+
+	// ---- MUTEX-FIELDS
+	checkMutexFields(c, l, "MUTEX-FIELDS", []string{"internal/frame", "internal/plugin", "internal/process", "internal/concurrent", "protocol/binary", "envelope", "internal/envelope", "internal/multiplex", "plugin", "gen"})
 
 	// ---- FRESH-RESULT
 	checkFreshResults(c, l, "FRESH-RESULT", []string{"internal/frame", "protocol/binary", "internal/envelope", "envelope", "internal/process"})
